@@ -20,7 +20,7 @@ Say(kind, prop, e, why, extra) ==
   PrintT(ToJson([kind |-> kind, property |-> prop, line |-> l, scn |-> info.scn,
                  check |-> e.check, why |-> why, deviation |-> extra]))
 
-IdsOf(S) == {d.id : d \in S}
+IdsOf(X) == {d.id : d \in X}
 
 TInit ==
   /\ l = 1
